@@ -7,6 +7,8 @@ exit 2  inconclusive (unsupported construct, solver unknown, build failure, mode
 """
 import os, sys, json, time, traceback, multiprocessing as mpc, random, subprocess, hashlib
 ROOT = os.path.dirname(os.path.dirname(os.path.abspath(__file__)))
+CACHE_DIR = os.environ.get('VERIF_CACHE') or os.path.join(ROOT, '.cache')
+OUT_ROOT = os.environ['VERIF_CACHE'] if os.environ.get('VERIF_CACHE') and os.environ.get('VERIF_REPO') else ROOT   # development runs leave /verif/out and /verif/evidence alone
 sys.path.insert(0, os.path.join(ROOT, 'engine'))
 sys.path.insert(0, ROOT)
 import z3
@@ -226,7 +228,7 @@ def load_known():
 def finish(check, report):
     """replay candidates, match known findings, write evidence, print verdict, return exit code"""
     pid = report.pid; total = report.total
-    outdir = os.path.join(ROOT, 'out', pid); os.makedirs(outdir, exist_ok=True)
+    outdir = os.path.join(OUT_ROOT, 'out', pid); os.makedirs(outdir, exist_ok=True)
     for f in os.listdir(outdir):
         if f.endswith('.json'): os.remove(os.path.join(outdir, f))
     known = [k for k in load_known().get('findings', []) if k['property'] == pid]
@@ -303,8 +305,8 @@ def finish(check, report):
         'wall_s': round(wall, 2), 'violations': n_viol,
     }
     ev['coverage'].update(report.extra)
-    os.makedirs(os.path.join(ROOT, 'evidence'), exist_ok=True)
-    json.dump(ev, open(os.path.join(ROOT, 'evidence', pid + '.json'), 'w'), indent=1, ensure_ascii=False, default=str)
+    os.makedirs(os.path.join(OUT_ROOT, 'evidence'), exist_ok=True)
+    json.dump(ev, open(os.path.join(OUT_ROOT, 'evidence', pid + '.json'), 'w'), indent=1, ensure_ascii=False, default=str)
     print(f'[{pid}] tier={report.tier} paths={total["paths"]} obligations={total["obligations"]} discharged={total["discharged"]} '
           f'candidates={len(cands)} confirmed={len(confirmed)} known={len(report.known_hits)} violations={n_viol} '
           f'inconclusive={len(inconclusive)} bound_hits={total["bound_hits"]} solver_s={total["solver_s"]:.1f} wall={wall:.1f}s')
